@@ -137,7 +137,7 @@ def run(ctx):
                 vals = variant_values(F, ety, ['Cancel'])
                 if vals:
                     carm = dict((v, x) for v, x in b['term']['targets']).get(vals[0], b['term']['otherwise'])
-        in_pn = {bb for g, bb, t, m_ in cs if g.id == pn.id}
+        in_pn = set(S.cancel_blocks)
         ok = carm is not None and bool(in_pn) and cfg.all_paths_pass(pn, carm, set(cfg.exits(pn)) | {tp[0][0]}, in_pn)
     R.ob('C08.cancel', ('<BaseChannel as Stream>::poll_next', 'a Cancel read from the transport is applied before the next message is read'), ok,
          'every path from the Cancel arm of the message just read calls the table\'s aborting removal with that id before the transport is read again or the poll returns',
